@@ -77,6 +77,8 @@ def gen_case(rng, cfg, big=False):
             catalog += this
         if rng.random() < 0.5:
             ops.append("D")
+        if rng.random() < 0.4:
+            ops.append("M")     # cold start: the next session meets the stored state as a new process would
     ops.append("D")
     return " | ".join(ops)
 
